@@ -293,21 +293,22 @@ Section P.
                  sym_val V (pe_identity V st n) y = Some x /\
                  forall y', y' <> y -> sym_val V (pe_identity V st n) y' = sym_val V st y').
   Proof.
-    unfold pe_identity. destruct (in_at n 0) as [x|]; [|left; apply facts_eq_refl].
-    destruct (out0 n) as [y|]; [|left; apply facts_eq_refl].
-    right. exists x, y. repeat split; auto.
-    - destruct (merge_shapes _ _) as [[?|]|]; cbn;
-        match goal with |- context [match assoc x ?l with _ => _ end] => destruct (assoc x l) end;
-        try match goal with |- context [match assoc y ?l with _ => _ end] => destruct (assoc y l) end; reflexivity.
-    - intro z. destruct (merge_shapes _ _) as [[?|]|]; cbn;
-        match goal with |- context [match assoc x ?l with _ => _ end] => destruct (assoc x l) end;
-        try match goal with |- context [match assoc y ?l with _ => _ end] => destruct (assoc y l) end; reflexivity.
+    destruct (in_at n 0) as [x|] eqn:Ix; [|left; unfold pe_identity; rewrite Ix; apply facts_eq_refl].
+    destruct (out0 n) as [y|] eqn:Oy; [|left; unfold pe_identity; rewrite Ix, Oy; apply facts_eq_refl].
+    right. exists x, y.
+    assert (Fr : exists t, pe_identity V st n = set_sym V t y (SVal x) /\
+                          s_const V t = s_const V st /\ s_sym V t = s_sym V st /\ s_guard V t = s_guard V st).
+    { unfold pe_identity. rewrite Ix, Oy. eexists. split; [reflexivity|].
+      repeat match goal with
+             | |- context [match ?c with _ => _ end] => destruct c
+             | |- context [if ?c then _ else _] => destruct c
+             end; cbn; auto. }
+    destruct Fr as (t & Ep & Fc & Fs & Fg). rewrite Ep.
+    split; [reflexivity|]. split; [reflexivity|]. split; [cbn; exact Fg|]. split; [intro z; cbn; rewrite Fc; reflexivity|].
+    split.
     - unfold sym_val, set_sym. cbn. rewrite String.eqb_refl. reflexivity.
     - intros y' Hy. unfold sym_val, set_sym. cbn.
-      destruct (String.eqb y' y) eqn:E; [apply String.eqb_eq in E; contradiction|].
-      destruct (merge_shapes _ _) as [[?|]|]; cbn;
-        match goal with |- context [match assoc x ?l with _ => _ end] => destruct (assoc x l) end;
-        try match goal with |- context [match assoc y ?l with _ => _ end] => destruct (assoc y l) end; reflexivity.
+      destruct (String.eqb y' y) eqn:E; [apply String.eqb_eq in E; contradiction|]. rewrite Fs. reflexivity.
   Qed.
 
   Inductive keep_state (st : state) (n : node) (st2 : state) : Prop :=
